@@ -300,8 +300,9 @@ def planOne (target : Vtx) (reaching : List Vtx) (trackReaching redefine : Bool)
     (cp : Vtx × List Vtx) : PlanSt :=
   let current := cp.1
   let path := cp.2
-  let through := if trackReaching then path.any (fun v => decide (v ∈ reaching)) else path.any (fun v => decide (v = target))
-  let unsat := if through then ps.unsat ++ [current.label] else ps.unsat
+  -- the code appends the requirement once for every vertex of the path that is being resolved
+  let hits := if trackReaching then path.filter (fun v => decide (v ∈ reaching)) else path.filter (fun v => decide (v = target))
+  let unsat := ps.unsat ++ hits.map (fun _ => current.label)
   match pathInput path with
   | none => { ps with unsat := unsat }
   | some input =>
